@@ -134,7 +134,7 @@ def local_defs(f: FuncInfo, name: str) -> list[ast.expr]:
     return out
 
 
-def expand_locals(f: FuncInfo, e: ast.AST, depth: int = 3) -> list[ast.AST]:
+def expand_locals(f: FuncInfo, e: ast.AST, depth: int = 8) -> list[ast.AST]:
     """e plus the definitions of local names it mentions (transitively, bounded) - a cheap def-use closure."""
     out = [e]
     frontier = [e]
